@@ -10,9 +10,9 @@ from . import facts
 _CACHE = {}
 
 
-def scan(files):
+def scan(files, cache=True):
     key = tuple(files)
-    if key in _CACHE:
+    if cache and key in _CACHE:
         return _CACHE[key]
     if not os.path.exists(facts.DECLSCAN):
         raise RuntimeError("declscan not built (run setup)")
